@@ -7,7 +7,9 @@ claim('C01', 'other',
       'Proved kernel + bounded: every ParticleMixin occurrence predicate and the OccursCalculator arithmetic are proved equal to the '
       'XSD occurrence spec for all integers (deductive, unbounded); the content-model interpreter itself (ModelVisitor/XsdGroup.raw_decode) '
       'is out of reach of the VC generator and is covered only by a bounded run-time contract (is_valid(doc(w)) <=> w in L(m)) over two exhaustively enumerated, baselined '
-      'scopes of models (nested group first / sibling first, 141 344 models) and all words up to length 5, labelled bounded.',
+      'scopes of models (nested group first / sibling first, 141 344 models) and all words up to length 5, plus families for wildcard and all-group leaves, references to substitution-group '
+      'heads (multi-level, abstract members), group references with their own occurrence, and - for XSD 1.1 - element particles competing with wildcards (judged where the two readings of the '
+      'priority rule agree); all labelled bounded.',
       'Trusted: pyvc encoding, z3/cvc5, spec functions as a reading of XSD Structures 3.8/3.9; the bounded part proves nothing beyond its scope.',
       'DESIGN.md 5/C01')
 
@@ -28,7 +30,7 @@ claim('C15', 'other',
       'pair is never an error; separable consistent pairs pass silently). The UPA decision itself (distinguishable_paths) has no per-function specification other '
       'than the property and is covered by a bounded run-time contract on the real builder: XMLSchema10/11 raises XMLSchemaModelError <=> an independent Glushkov '
       'position-automaton decides the model violates UPA, over exhaustively enumerated scopes of 143 416 models per class (quick: a quarter), plus an EDC family '
-      '(x:T1, y, x:T2 in three nestings, every type pair). Disagreements of the unchanged tree are listed one by one in baseline/C15_instances.json; any other disagreement is a violation.',
+      '(x:T1, y, x:T2 in three nestings, every type pair) and a family of references to substitution-group heads and members. Disagreements of the unchanged tree are listed one by one in baseline/C15_instances.json; any other disagreement is a violation.',
       'Trusted: the independent UPA oracle (bounded/cm.py); the element relations are uninterpreted in the pair-body contract. The UPA part is bounded, not proved.',
       'DESIGN.md 5/C15')
 
@@ -58,7 +60,8 @@ claim('C03', 'other',
       'invariant to yield exactly the required names and exactly the fixed (and, when enabled, default) values; the wildcard leaf '
       'is_namespace_allowed / is_matching is proved under C16. The per-attribute decision loop of XsdAttributeGroup.raw_decode is covered by a '
       'bounded run-time contract through the real API: is_valid <=> attrs_valid and decoded absent attributes = fixed (+ defaults iff enabled), '
-      'over 13 034 configurations x name subsets x values (quick: one sixteenth, ~870 000 cases).',
+      'over 13 034 configurations x name subsets x values (quick: one sixteenth, ~870 000 cases), and a run-time contract on the real method with a spy on the attribute decoders '
+      '(processed attributes = instance attributes + absent value-constrained ones, in validation-only and decoding contexts; decoded result under fill_missing / filler).',
       'Trusted: the set-based reference attrs_valid; the corner "prohibited declaration that the wildcard admits" is outside the deciding scope (reported).',
       'DESIGN.md 5/C03')
 
@@ -67,12 +70,14 @@ claim('C04', 'other',
       'is_valid/validate of components and of schemas over the ghost sequence of iter_errors (verdict = that of the first error, all arguments '
       'forwarded), and the CLI exit status (loop invariant; exit status 0 iff all files valid, for every error count) are proved. Agreement of '
       'all entry points, modes and 10 source kinds, package-level functions included, is a bounded run-time contract on generated faulty documents, '
-      'plus the CLI as a subprocess for 0, 1, 255, 256, 512 errors.',
+      'lxml trees and documents with comments, inheritable attributes (XSD 1.1 context copies), a strict wildcard; verdict agreement on five small schemas (mixed content with a fixed value, '
+      'list enumerations, an IDREF default); plus the CLI as a subprocess for 0, 1, 255, 256, 512 errors.',
       'Trusted: POSIX 8-bit exit status; the non-interference of the validation mode before the first error is a 2-safety property outside this family and only bounded-checked.',
       'DESIGN.md 5/C04')
 claim('C05', 'other',
       'Bounded-dominated: the proved part is the boolean codec round trip (python_to_boolean / boolean_to_python) shared with C02; decode/encode '
-      'round trip for 5 lossless converters and strict-encode soundness on mutated data are bounded run-time contracts over generated documents.',
+      'round trip for 5 lossless converters and strict-encode soundness on mutated data (drop, duplicate, retype, reorder, rename, truncate; JsonML text insertions; a fixed attribute) are '
+      'bounded run-time contracts over generated documents.',
       'Thin proved kernel (stated as such). Encoding performs no identity-constraint checks: listed finding.', 'DESIGN.md 5/C05')
 claim('C06', 'other',
       'Proved kernel + bounded: loop-body equivalence of the eager and the lazy loader - for every event kind and every pre-state both loop bodies leave equal '
@@ -83,14 +88,16 @@ claim('C06', 'other',
 claim('C07', 'other',
       'Proved kernel + bounded: statement contracts on the xsi:nil block and the xsi:type block of XsdElement.raw_decode (nilled <=> nillable and true and no '
       'fixed and empty; error <=> lookup fails or the named type is blocked) and XsdType.is_blocked are proved for all inputs; derivation, abstract, block '
-      'defaults, substitution groups are covered by a bounded contract against a reference decision procedure over flag products.',
+      'defaults, substitution groups are covered by a bounded contract against a reference decision procedure over flag products (mixed two-step derivation chains included); '
+      'XsdComplexType.is_derived is under contract for the complex-content chain (a step of the other method never ends the search).',
       'is_derived and get_instance_type are uninterpreted in the proofs and exercised only by the bounded part; XPath tests of type alternatives are elementpath.', 'DESIGN.md 5/C07')
 claim('C08', 'other',
       'Proved kernel + bounded: IdentityCounter.increase (exactly one duplicate error per repeated tuple), KeyrefCounter.increase, reset and '
       'KeyrefCounter.iter_errors (loop invariant: an error exactly for complete dangling tuples) and the ID/IDREF block of XsdAtomicBuiltin.raw_decode (duplicate '
       'exactly when registered as an ID before) are proved; selection of nodes and fields is XPath (elementpath) and is covered by a bounded contract against '
       'key_table_ok over exhaustive small tables with lexical variants (seven field types, three of them unions), a keyref referring to a key declared on a repeated '
-      'descendant (0-2 instances), and ID/IDREF documents.',
+      'descendant (0-2 instances), a keyref on a repeated element with the key on its optional child (every instance against its own table), and ID/IDREF documents. '
+      'XMLSchemaBase._validate_references (one error per unresolved IDREF, exactly the enabled keyrefs checked and forwarded) is proved by loop invariants.',
       'xs:unique over incomplete tuples is outside the deciding scope; the table propagation across repeated descendants is a listed finding; elements that exist only through xsi:type are invisible to selectors (observation in DESIGN.md).', 'DESIGN.md 5/C08')
 claim('C09', 'other',
       'Thin proved kernel + bounded: StagedMap (__getitem__ builds on demand and returns the built component, load refuses a second declaration of a name and '
@@ -106,18 +113,21 @@ claim('C10', 'other',
 claim('C11', 'other',
       'Proved kernel + bounded: the depth / element counters of both loaders (XMLResourceExceeded raised exactly when a limit is exceeded; a document at '
       'the limit is processed), LimitsModule.__setattr__, raise_or_collect never raising in lax mode are proved; "verdict or library error" on '
-      'mutated / truncated documents and the limit sweep are bounded.',
+      'mutated / truncated documents, extreme lexical values in identity fields and facets, blocked substitutions in lax / skip mode and the limit sweep are bounded; the handler that '
+      'collects the errors of the dynamic-context helper is a syntactic obligation.',
       'RecursionError for deep nesting and an elementpath assertion on odd namespace names in lazy mode are listed findings.', 'DESIGN.md 5/C11')
 claim('C12', 'proof',
       'XMLResource.access_control is proved for all strings: returning normally implies allowed(mode, url, base) with segment-wise containment for '
       'sandbox; only XMLResourceBlocked is raised; is_local_scheme and the local/remote classification are proved exact (exactly one class per URL-like string). '
       'Canonicalisation of spellings (normalize_url, urlsplit, pathlib) is assumed in the proof and exercised by an exhaustive bounded catalogue with an '
-      'audit hook: 5 modes x include/import/redefine/instance hint x 14 spellings.',
+      'audit hook: 5 modes x include/import/redefine/instance hint x 14 spellings, sandbox without an explicit base_url, parse() on resource / document objects. Propagation obligations '
+      '(the base URL of the referring schema reaches every load; get_arguments returns every Argument of the class hierarchy) are decided on the real AST / real objects.',
       'Proved: the decision kernel. Assumed: normalize_url canonicalises, no symlinks, every fetch goes through access_control (dominance is checked by the bounded catalogue, not proved).',
       'DESIGN.md 5/C12')
 claim('C13', 'other',
       'Proved kernel + bounded: the defuse truth table of XMLResource.is_defused and the URL classes it uses are proved; refusal before expansion for 11 '
-      'payloads x 4 modes x 9 source kinds and for main / included schemas is a bounded contract with an audit hook on the secret file.',
+      'payloads x 4 modes x 21 source kinds (UTF-8, BOM, UTF-16) and for main / included schemas is a bounded contract with an audit hook on the secret file; the reset contract requires '
+      'parameter-entity parsing ALWAYS (external subset of standalone documents), and no return of open() precedes the defuse decision (syntactic).',
       'expat calls the declaration handlers before any expansion (assumed). Large prolog on a non-seekable stream: listed finding.', 'DESIGN.md 5/C13')
 claim('C17', 'other',
       'Proved kernel + bounded: under the representation invariant R-INV, unmap_qname(map_qname(Q(u,l))) = Q(u,l) for all strings, map_qname and '
@@ -131,8 +141,9 @@ claim('C19', 'other',
       'parent, every path selects exactly error.elem" is a bounded contract over every node x 6 fault kinds.',
       'XPath evaluation of the path (elementpath) assumed.', 'DESIGN.md 5/C19')
 claim('C20', 'other',
-      'Bounded-dominated: schema.find(path(e)) is the declaration that governed e (observed through the public validation_hook); iter_errors(path=p) equals the '
+      'Thin proved kernel + bounded: schema.find(path(e)) is the declaration that governed e (observed through the public validation_hook); iter_errors(path=p) equals the '
       'whole-document errors restricted to the selected subtree(s), positional and non-positional paths with a unique constraint on a repeated intermediate element, '
-      'prefixed and default-namespace forms; errors above a max_depth cut are unchanged. The only obligation decided on the code itself is syntactic: the list the '
-      'resource iterator updates in place is never aliased in the path loop of iter_errors.',
+      'prefixed and default-namespace forms; errors above a max_depth cut are unchanged. '
+      'Decided on the code itself: XMLSchemaBase.get_element against the uninterpreted find() / global map (the declaration at the path when it is an element named tag, a local one before a '
+      'global one of the same name; proved with cvc5/z3 strings) and, syntactically, that the list the resource iterator updates in place is never aliased in the path loop of iter_errors.',
       'The property is about XPath selection on the schema (elementpath): no per-function contract in /repo decides it.', 'DESIGN.md 5/C20')
